@@ -279,6 +279,7 @@ def run(ctx):
                   'the tasks recorded as having triggered it', 'DT + AGREE')
     from mstatic.rules import cmdcalc
     cmdcalc.triggered_by_ids(ctx, r9)
+    cmdcalc.upstream_query_choice(ctx, r9)
     from mstatic.rules import shared as _sh
     _sh.inbound_before_publish(ctx, r9)
     _sh.requires_read_with_defaults(ctx, r9)
